@@ -7,6 +7,7 @@ import (
 	"fmt"
 	"os"
 	"os/signal"
+	"regexp"
 	"runtime"
 	"testing"
 	"time"
@@ -31,6 +32,13 @@ type Job struct {
 	File        string  `json:"file"` // replay / minimize input
 	FileOut     string  `json:"file_out"`
 	DumpRuns    string  `json:"dump_runs"` // selftest: one line per run with its hashes
+	Known       []Known `json:"known"`     // open known findings: counted, not reported as failures
+}
+
+// Known is an open known finding handed to the worker by the driver.
+type Known struct {
+	Class  string `json:"class"`
+	Detail string `json:"detail_regexp"`
 }
 
 // Summary is the aggregate a worker reports at the end of a job.
@@ -53,6 +61,7 @@ type Summary struct {
 	DetMismatch int               `json:"det_mismatch"`
 	Samples     []json.RawMessage `json:"samples"`
 	Failures    int               `json:"failures"`
+	KnownSeen   map[string]int    `json:"known_seen"`
 }
 
 var activeRun struct {
@@ -163,7 +172,11 @@ func TestWorker(t *testing.T) {
 func explore(t *testing.T, p Property, job Job, out *outWriter) {
 	start := time.Now()
 	sum := Summary{Type: "summary", Worker: job.Worker, Probes: map[string]int{}, Faults: map[string]int{},
-		Modes: map[string]int{}, Labels: map[string]int{}}
+		Modes: map[string]int{}, Labels: map[string]int{}, KnownSeen: map[string]int{}}
+	knownRe := make([]*regexp.Regexp, len(job.Known))
+	for i, k := range job.Known {
+		knownRe[i] = regexp.MustCompile(k.Detail)
+	}
 	var hashes []uint64
 	var dump *os.File
 	if job.DumpRuns != "" {
@@ -242,6 +255,20 @@ func explore(t *testing.T, p Property, job Job, out *outWriter) {
 			break
 		}
 		if res.Violation != nil {
+			isKnown := false
+			for ki, k := range job.Known {
+				if k.Class == res.Violation.Class && knownRe[ki].MatchString(res.Violation.Detail) {
+					sum.KnownSeen[k.Class+"|"+k.Detail]++
+					isKnown = true
+					break
+				}
+			}
+			if isKnown {
+				if poisoned {
+					break
+				}
+				continue
+			}
 			cb, _ := json.Marshal(c)
 			rs := spec
 			rs.Mode = "replay"
